@@ -5,7 +5,12 @@ use std::time::Duration;
 #[cfg(not(target_arch = "wasm32"))]
 use std::time::Instant;
 
+#[cfg(indicatif_verif)]
+use crate::verif_hooks::AtomicU64;
+#[cfg(not(indicatif_verif))]
 use portable_atomic::{AtomicU64, AtomicU8, Ordering};
+#[cfg(indicatif_verif)]
+use portable_atomic::{AtomicU8, Ordering};
 #[cfg(target_arch = "wasm32")]
 use web_time::Instant;
 
@@ -220,6 +225,8 @@ impl BarState {
 
 impl Drop for BarState {
     fn drop(&mut self) {
+        #[cfg(indicatif_verif)]
+        crate::verif_hooks::mark("bar_state_drop", 0);
         // Progress bar is already finished.  Do not need to do anything other than notify
         // the `MultiProgress` that we're now a zombie.
         if self.state.is_finished() {
